@@ -27,6 +27,10 @@ func spaces(thorough bool) []chanmc.Space {
 		out = append(out, chanmc.Space{Dev: -1, P: chanmc.Params{Type: typ, OpenerB: openerB, MaxCuts: 2, CutOnlyInSync: !thorough, CrashPoints: true, Script: []chanmc.Intent{
 			{By: 0, Amt: sat(th[0], 0), Fate: "fail"}, {By: 1, Amt: sat(th[2]-1, 999), Fate: "settle"},
 		}}})
+		// two HTLCs in the same direction, both settled (pipelined removals), one crash anywhere
+		out = append(out, chanmc.Space{Dev: -1, P: chanmc.Params{Type: typ, OpenerB: openerB, MaxCuts: 1, CrashPoints: true, Script: []chanmc.Intent{
+			{By: 0, Amt: sat(35000, 0), Fate: "settle"}, {By: 0, Amt: sat(th[1]+1, 0), Fate: "settle"},
+		}}})
 		// fee update + malformed failure, one crash anywhere
 		sc := []chanmc.Intent{{By: 1, Amt: sat(40000, 7), Fate: "malformed"}}
 		if thorough {
@@ -45,7 +49,7 @@ func TestC02(t *testing.T) {
 		}
 		os.Exit(run.Finish(map[string]any{"evaluations": 1, "distinct_nontrivial": 2, "states": 1, "transitions": 1, "traces_validated_against_impl": 1, "samples": []any{rp}}))
 	}
-	budget := 170 * time.Second
+	budget := 300 * time.Second
 	if run.Thorough() {
 		budget = 35 * time.Minute
 	}
